@@ -970,6 +970,10 @@ class Manager:
             # Fading out, handle remaining work from stop event (also when
             # the loop is left by SystemExit carrying an exit code)
             with contextlib.suppress(Exception):
+                # events queued by or around the stop must not be left
+                # behind when SystemExit ended the loop early
+                while len(self._queue):
+                    self.tick()
                 for _ in range(4):
                     self.tick()
 
